@@ -108,9 +108,13 @@ def check_serializer(ctx, lib):
             ok, why = int_entry_ok(b, t, P2)
         row(f"serialize_{t}", ok, f"Number(Number::from::<{t}>(value)) with no numeric cast")
     b, o, okt, tails = R("serialize_f32")
-    ok = bool(b) and not okt and len(tails) == 1 and m(tails[0], Call("serde::Serializer::serialize_f64", Each(P1), Each(lambda x: x[0] == "cast" and x[1] == P2 and x[2] == "f64")))
     cs = casts_in(b) if b else []
-    row("serialize_f32", ok and len(cs) == 1 and cs[0][1] == "f32" and cs[0][2] == "f64", "widens to f64 and delegates to serialize_f64 on the same serializer")
+    # the exact widening, written `value as f64` or `f64::from(value)`
+    by_cast = bool(b) and not okt and len(tails) == 1 and m(tails[0], Call("serde::Serializer::serialize_f64", Each(P1), Each(lambda x: x[0] == "cast" and x[1] == P2 and x[2] == "f64"))) and \
+        len(cs) == 1 and cs[0][1] == "f32" and cs[0][2] == "f64"
+    by_from = bool(b) and not okt and len(tails) == 1 and m(tails[0], Call("serde::Serializer::serialize_f64", Each(P1), Each(P2))) and not cs and \
+        [t["callee_args"] for _, t in b.calls() if t["callee"] == "std::convert::From::from"] == [["f64", "f32"]]
+    row("serialize_f32", by_cast or by_from, "widens to f64 and delegates to serialize_f64 on the same serializer")
     b, o, okt, tails = R("serialize_f64")
     ok = bool(b) and len(okt) >= 1 and not tails and f64_mapping_ok(set().union(*okt), P2)
     row("serialize_f64", ok and not casts_in(b), "Number(from_f64(value)) when finite, Null otherwise")
@@ -129,8 +133,17 @@ def check_serializer(ctx, lib):
                 pass
             elif x[0] == "call" and x[1] in ("std::string::ToString::to_string", "std::convert::From::from", "std::convert::Into::into") and set(x[2][0]) == {P2}:
                 pass
+            elif x == P2 and [t["callee"] for _, t in b.calls() if t["callee"] in ("std::string::ToString::to_string", "std::convert::From::from", "std::convert::Into::into")
+                              and o.of_operand(t["args"][0]) == {P2}]:
+                pass        # String::from(c) / c.to_string() / c.into(): conversions are transparent in provenance
             else:
                 ok = False
+    if not ok and b and okt and not tails:
+        # built in place: Ok(Variable::String(<the character as a String>))
+        conv = [t for _, t in b.calls() if t["callee"] in ("std::string::ToString::to_string", "std::convert::From::from", "std::convert::Into::into")
+                and o.of_operand(t["args"][0]) == {P2}]
+        other = [t["callee"] for _, t in b.calls() if t not in conv]
+        ok = all(ms(t, Agg(VAR + "::String", Each(P2))) for t in okt) and len(conv) == 1 and not other
     row("serialize_char", ok, "String consisting of exactly that character")
     b, o, okt, tails = R("serialize_bytes")
     # the bytes in order, each as Number(byte) — as an iterator chain or as a loop (collected.describe_vector)
@@ -296,6 +309,16 @@ def check_states(ctx, lib):
 
 
 # =============================================================================================
+def field_by_type(lib, adt, ty_prefix, default):
+    """Name of the one field of a private struct whose type starts with ty_prefix (private fields may be renamed)."""
+    a = lib.adts.get(adt)
+    if a and a.get("kind") == "struct" and a["variants"]:
+        fs_ = [f["name"] for f in a["variants"][0]["fields"] if (f.get("ty") or "").startswith(ty_prefix)]
+        if len(fs_) == 1:
+            return fs_[0]
+    return default
+
+
 def arm_regions(b, br, adt, scrutinee_pat):
     sb, ve = br.first_variant_switch(adt, lambda s: ms(s, scrutinee_pat))
     if ve is not None:
@@ -460,8 +483,12 @@ def check_deserializer(ctx, lib):
                         if not (e_[0] == "agg" and len(e_[2]) == 2):
                             ok = False
                             continue
-                        names_ = e_[3] if len(e_) > 3 and e_[3] else ("variant", "val")
+                        ED = "variable::EnumDeserializer"
+                        f_var = field_by_type(lib, ED, "std::string::String", "variant")
+                        f_val = field_by_type(lib, ED, "std::option::Option<", "val")
+                        names_ = e_[3] if len(e_) > 3 and e_[3] else (f_var, f_val)
                         vals_ = dict(zip(names_, e_[2]))
+                        vals_ = {"variant": vals_.get(f_var, ()), "val": vals_.get(f_val, ())}
                         content = {strip_through(x) for x in vals_.get("val", ())}
                         if arm_name == "Object":
                             entry = ("elem", ("field", P1, "Object.0"))
@@ -486,7 +513,8 @@ def check_deserializer(ctx, lib):
         br = Branches(b, o)
         ok = False
         opt = None
-        sb, ve = br.first_variant_switch("std::option::Option", lambda s: ms(s, ("field", P1, "val")))
+        VD_VAL = field_by_type(lib, "variable::VariantDeserializer", "std::option::Option<", "val")
+        sb, ve = br.first_variant_switch("std::option::Option", lambda s: ms(s, ("field", P1, VD_VAL)))
         if ve is not None:
             opt = (sb, ve)
         if opt:
@@ -502,7 +530,7 @@ def check_deserializer(ctx, lib):
                 ok = none_ok and len(dc) == 1 and dc[0]["callee_args"][0] == "()"
             elif meth == "newtype_variant_seed":
                 dc = [t for x in sorted(some_reg) for t in [b.blocks[x]["term"]] if t["k"] == "call" and t["callee"] == "serde::de::DeserializeSeed::deserialize"]
-                ok = region_always_errs(b, none_reg) and len(dc) == 1 and o.of_operand(dc[0]["args"][0]) == {P2} and o.of_operand(dc[0]["args"][1]) == {("field", P1, "val")}
+                ok = region_always_errs(b, none_reg) and len(dc) == 1 and o.of_operand(dc[0]["args"][0]) == {P2} and o.of_operand(dc[0]["args"][1]) == {("field", P1, VD_VAL)}
             else:
                 want_kind, des = ("Array", "SeqDeserializer") if meth == "tuple_variant" else ("Object", "MapDeserializer")
                 inner = None
